@@ -1619,3 +1619,24 @@ Proof.
     + apply three_dots_inv in TD. rewrite TD in E. rewrite prune_map in E. vm_compute in E. discriminate E.
     + rewrite E. reflexivity.
 Qed.
+
+(** non-vacuity: a tree of the domain with a literal (long-form) key, a null
+    entry that is pruned, a text with a leading blank, and flow style from depth 3 *)
+Definition ex_tree : item :=
+  Map [ (["a"; x0a]%byte, Lst [Null; Scalar [" "; "a"; x0a]%byte; Lst [Lst [Map [(["k"]%byte, Scalar [])]]]]);
+        (["k"]%byte, Scalar ["a"]%byte) ].
+
+Example ex_tree_in_domain : wf_item ex_tree = true /\ scalars_wf ex_tree.
+Proof.
+  split; [reflexivity|]. cbn [scalars_wf ex_tree].
+  repeat match goal with |- _ /\ _ => split end; try exact I; try (cbn; lia);
+    first [wf_ex [97; 10] | wf_ex [32; 97; 10] | wf_ex [107] | wf_ex (@nil N) | wf_ex [97]].
+Qed.
+
+Example ex_tree_roundtrip :
+  load_octs (emit_octs ex_tree) = Some (prune ex_tree) /\ prune ex_tree <> ex_tree /\
+  unnums (emit_octs ex_tree) =
+    ["?"; " "; "|"; x0a; " "; " "; "a"; x0a; x0a; ":"; " "; "-"; " "; """"; " "; "a"; "\"; "n"; """"; x0a;
+     " "; " "; "-"; x0a; " "; " "; " "; " "; "-"; " "; "["; "{"; "k"; ":"; " "; """"; """"; "}"; "]"; x0a;
+     "k"; ":"; " "; "a"]%byte.
+Proof. split; [|split]; [vm_compute; reflexivity|discriminate|vm_compute; reflexivity]. Qed.
